@@ -509,4 +509,69 @@ func TestVerifC19Rejects(t *testing.T) {
 			env.close()
 		}
 	}
+	// a create that the server cannot complete (the metadata store fails at its n-th call) is answered with an error:
+	// like every other rejected request it must leave tasks, checkpoints and bookkeeping as they were
+	shapes := []c19Adv{
+		{"plain", func(d map[string]interface{}) {}},
+		{"with-position", validPos},
+		{"with-rpc-position", func(d map[string]interface{}) {
+			d["rpc_channel_info"] = map[string]interface{}{"name": "by-dev-replicate-msg", "position": c19Pos("by-dev-replicate-msg", "r")}
+		}},
+		{"with-both-positions", func(d map[string]interface{}) {
+			validPos(d)
+			d["rpc_channel_info"] = map[string]interface{}{"name": "by-dev-replicate-msg", "position": c19Pos("by-dev-replicate-msg", "r")}
+		}},
+	}
+	for pi, prefix := range prefixes {
+		for _, shape := range shapes {
+			for _, withID := range []bool{true, false} {
+				for fault := 1; fault <= 8; fault++ {
+					idx++
+					if !ev.Mine(idx) {
+						continue
+					}
+					env := newVEnv()
+					for _, pd := range prefix {
+						c19Do(env, http.MethodPost, c19Body("create", pd))
+					}
+					before := c19Snapshot(env)
+					d := c19Valid("adv")["create"]
+					shape.Mut(d)
+					if !withID {
+						delete(d, "task_id")
+					}
+					body := c19Body("create", d)
+					n := 0
+					env.fe.Hook = func(o, k string) error {
+						n++
+						if n == fault {
+							return errC11Fault
+						}
+						return nil
+					}
+					ans := c19Do(env, http.MethodPost, body)
+					env.fe.Hook = nil
+					res.Evaluations++
+					res.States++
+					res.Transitions++
+					res.Traces++
+					name := fmt.Sprintf("%s/id=%v", shape.Name, withID)
+					replay := map[string]interface{}{"method": "POST", "body": string(body), "case": "store-fault:" + name, "fault_at_store_call": fault}
+					if msg := c19Judge(http.MethodPost, ans); msg != "" {
+						res.Violate("C19/"+strings.SplitN(msg, ":", 2)[0]+"/create:store-fault/"+name, fmt.Sprintf("create (%s) with the store failing at call %d after prefix %d: %s", name, fault, pi, msg), replay)
+						env.close()
+						continue
+					}
+					if ans.Code != 200 {
+						if after := c19Snapshot(env); before != after {
+							res.Violate("C19/reject-side-effect/create:store-fault/"+name, fmt.Sprintf("create (%s) with the store failing at call %d after prefix %d was answered %d %s but changed state\n--- before\n%s\n--- after\n%s", name, fault, pi, ans.Code, ans.Body, before, after), replay)
+						}
+						res.Nontrivial++
+					}
+					res.Outcome(fmt.Sprintf("store-fault:%s:%d", name, ans.Code))
+					env.close()
+				}
+			}
+		}
+	}
 }
